@@ -11,6 +11,7 @@ import Daac.Model.Serial
 import Daac.Inv
 import Daac.InvExtra
 import Daac.Gen.Consts
+import Daac.Driver.Hints
 namespace Daac.Driver
 open Daac
 
@@ -212,7 +213,7 @@ def expectedBuild (c : Case) (P : List (Pat Int)) : List String :=
   let defects : List String :=
     (if P.isEmpty then ["invalid_argument"] else []) ++
     (if P.any (fun p => p.key.isEmpty) then ["invalid_argument"] else []) ++
-    (if decide ((P.map (·.key)).Nodup) then [] else ["duplicate_pattern"])
+    (if (P.foldl (fun (hs : Std.HashSet (List Nat)) p => hs.insert p.key) {}).size == P.length then [] else ["duplicate_pattern"])
   defects
 
 
@@ -378,6 +379,18 @@ def checkCase (env : Env) (c : Case) : Env × Array String := Id.run do
     a := checkTrans c da a
     a := checkInvs c da LPret a
     a := checkSerial c da a
+    -- a tie broke on this case: look inside the implementation's own tables for a failing input
+    if a.lines.any (fun l => l.startsWith "CORR suite=K-build" || l.startsWith "INV ") then
+      if c.kind == 0 then
+        match worstHay da 48 3000 with
+        | some (cost, h) =>
+          a := { a with lines := a.lines.push s!"HINT case={c.id} {a.tag} why=steps cost={cost} hay={toHex h}" }
+        | none => pure ()
+      match modelBuild c LP with
+      | .ok m =>
+        for h in distinguish da m (c.kind != 0) 20000 4 do
+          a := { a with lines := a.lines.push s!"HINT case={c.id} {a.tag} why=product hay={toHex h}" }
+      | .error _ => pure ()
     -- C15: truthful statistics
     let want := 1 + (LPret.foldl (fun (hs : Std.HashSet (List Nat)) p => (nprefixes p.key).foldl (fun hs u => hs.insert u) hs) {}).size
     if da.numStates != want then
